@@ -8,6 +8,7 @@ import (
 	"path/filepath"
 	"strings"
 	"sync"
+	"sync/atomic"
 	"time"
 
 	"github.com/superfly/litefs"
@@ -40,7 +41,7 @@ func init() {
 		Run:         runC08,
 		Floors: func(tier string) map[string]int {
 			m := map[string]int{"probes": 500, "loss_by_expiry": 2, "loss_by_renew_errors": 2, "loss_by_demote": 2, "loss_by_handoff": 2, "foreign_cluster_refused": 2,
-				"next_call_after_loss_checked": 8, "stream_after_loss_refused": 4, "write_after_loss_refused": 4, "lease_closed_after_loss": 6, "handoff_failed_still_primary": 2, "acquire_on_held_lease_refused": 4, "handoff_refused": 4, "noncandidate_never_acquired": 2}
+				"next_call_after_loss_checked": 8, "stream_after_loss_refused": 4, "write_after_loss_refused": 4, "lease_closed_after_loss": 6, "handoff_failed_still_primary": 2, "acquire_on_held_lease_refused": 4, "handoff_refused": 2, "noncandidate_never_acquired": 2, "handoff_target_dropped_mid_handoff": 1}
 			for _, s := range c08Scripts {
 				m["script_"+s] = 1
 			}
@@ -245,7 +246,7 @@ func runC08(c *core.Case) {
 	if script != "renew-errors" && script != "expire" {
 		ttl = 300 * time.Millisecond
 	}
-	if script == "handoff-fails-then-loss" {
+	if script == "handoff-fails-then-loss" || (script == "handoff-disconnected" && variant%2 == 1) {
 		ttl = 3 * time.Second
 	}
 	if script == "renew-errors" && variant%4 == 3 {
@@ -486,6 +487,51 @@ func runC08(c *core.Case) {
 			c.Count("handoff_refused", 1)
 		case "handoff-disconnected":
 			id := target.Store.ID()
+			if variant%2 == 1 {
+				// The target is connected when the handoff is requested and drops while
+				// n0 renews the lease one last time (inside the handoff). Nobody is
+				// there to take the lease: n0 must notice and stay primary (or give the
+				// lease up properly) - never leave the role with the lease parked.
+				var armed, cutDone, cbDone atomic.Bool
+				armed.Store(true)
+				prevInject := cl.Svc.Inject
+				cl.Svc.SetInject(func(node, op string) error {
+					if node == "n0" && op == "renew" && armed.CompareAndSwap(true, false) {
+						cl.Nodes[0].Proxy.SetMode("refuse")
+						cl.Nodes[0].Proxy.Cut()
+						for i := 0; i < 2000 && n.Store.SubscriberByNodeID(id) != nil; i++ {
+							time.Sleep(time.Millisecond)
+						}
+						cutDone.Store(n.Store.SubscriberByNodeID(id) == nil)
+						c.Logf("handoff drop: cut during n0's renewal, target subscriber gone=%v", cutDone.Load())
+						cbDone.Store(true)
+					}
+					return prevInject(node, op)
+				})
+				hctx, hcancel := context.WithTimeout(context.Background(), 20*time.Second)
+				herr := n.Store.Handoff(hctx, id)
+				hcancel()
+				// (Handoff only queues the request: the renewal happens in the lease loop)
+				for i := 0; i < 8000 && !cbDone.Load(); i++ {
+					time.Sleep(time.Millisecond)
+				}
+				cl.Svc.SetInject(prevInject)
+				cl.Nodes[0].Proxy.SetMode("pass")
+				c.Logf("handoff drop: Handoff returned %v armed=%v cutDone=%v", herr, armed.Load(), cutDone.Load())
+				if armed.Load() || !cutDone.Load() {
+					c.Count("handoff_drop_not_steered", 1)
+					return
+				}
+				settled := o.waitFor(4*time.Second, func() bool {
+					return n.Store.IsPrimary() || o.held[target.Name] != "" || o.closed["n0"] > 0
+				})
+				if !settled {
+					c.Violate("C08/lease-neither-destroyed-nor-handed-off", fmt.Sprintf("the handoff target dropped its connection during the handoff (Handoff returned %v): n0 is no longer primary, its lease is neither destroyed nor taken over by %s", herr, target.Name), detail())
+					return
+				}
+				c.Count("handoff_target_dropped_mid_handoff", 1)
+				return
+			}
 			cl.Stop(1)
 			time.Sleep(50 * time.Millisecond)
 			err := n.Store.Handoff(context.Background(), id)
